@@ -11,8 +11,13 @@ package proxy
 //@ regexlang playerNameRegex == "[A-Za-z0-9_]{2,16}" ; props C10
 
 // The username is checked before anything is stored or any event is fired for the login.
+// (C08) A login start is accepted only in the "login packet expected" state and the state is advanced at once - before the
+// name check, any event or any deferred completion - so a second login start on the same connection always closes it.
 //@ func (*initialLoginSessionHandler).handleServerLogin
-//@   props C10
+//@   props C10 C08
+//@   at-call assertState as st: assert arg0 == l && arg1 == loginPacketExpectedLoginState
+//@   at-store currentState: assert [state-advanced-first] called(st) && res(st) && value == loginPacketReceivedLoginState && !called(m)
+//@   at-call MatchString as m2: assert [second-login-start-can-no-longer-pass] called(st) && res(st) && l.currentState == loginPacketReceivedLoginState
 //@   at-call MatchString as m: assert arg0 == playerNameRegex && streq(arg1, login.Username)
 //@   at-store login: assert called(m) && res(m) && value == login
 //@   at-call newPreLoginEvent: assert called(m) && res(m) && streq(arg1, login.Username)
